@@ -291,3 +291,61 @@ def install(eng):
         return tuple(args)
 
     eng.call_hooks["class:speckit/core.py:BinStats"] = binstats
+
+
+# ------------------------------------------------------------------------- run-time reading
+# (bounded: cross-check of the encoding, replay of candidate counter-models, float gap)
+
+
+def kernel_sample(family, cross):
+    def sample(rng, i):
+        import numpy as np
+        from speckit.core import _build_Q
+
+        N = int(rng.integers(8, 120))
+        L = int(rng.integers(1, min(N, 48) + 1)) if i % 7 else N
+        K = int(rng.integers(1, 6))
+        starts = rng.integers(0, N - L + 1, K).astype(np.int64)  # unsorted, repeats allowed
+        t = np.arange(N)
+        a = dict(starts=starts, L=L, w=rng.normal(size=L) if i % 3 else np.hanning(L + 2)[1:-1].copy(), omega=float(rng.uniform(0, np.pi)))
+        if i % 5 == 0:
+            a["omega"] = 2 * np.pi * int(rng.integers(0, L // 2 + 1)) / L
+        x1 = rng.normal(size=N) + rng.normal() * 3 + rng.normal() * 0.1 * t + rng.normal() * 0.002 * t * t
+        x2 = rng.normal(size=N) + rng.normal() * 3 + rng.normal() * 0.1 * t + rng.normal() * 0.002 * t * t + 0.5 * x1
+        if cross:
+            a["x1"], a["x2"] = x1, x2
+        else:
+            a["x"] = x1
+        if family == "poly":
+            order = int(rng.integers(1, 3))
+            if L <= order:
+                order = 1
+            a["Q"] = _build_Q(L, order) if L >= 2 else np.ones((1, 1))
+        return a
+
+    return sample
+
+
+def kernel_call(modname, fname):
+    def call(a):
+        import importlib
+
+        m = importlib.import_module(modname)
+        return getattr(m, fname)(**a)
+
+    return call
+
+
+def kernel_scale(a, result):
+    import numpy as np
+
+    x = a.get("x1", a.get("x"))
+    s = float(np.sum(np.abs(a["w"])) * (np.max(np.abs(x)) + (np.max(np.abs(a["x2"])) if "x2" in a else 0.0)))
+    return 1e3 * s * s * max(1, len(a["w"]))  # recurrence rounding budget ~ L*eps*(sum|v|)^2; RTOL=1e-7
+
+
+for _u in UNITS:
+    if _u.id.startswith("core._stats_"):
+        _fam = "poly" if "_poly_" in _u.id else ("detrend0" if "_detrend0_" in _u.id else "win_only")
+        _cross = "_csd" in _u.id
+        _u.runtime = dict(sample=kernel_sample(_fam, _cross), call=kernel_call("speckit.core", _u.func), scale=kernel_scale, n_quick=12, n_thorough=120, n_search=60, skip_requires=("forall(0, K, lambda j: 0 <= starts[j] and starts[j] + L <= N)",))
